@@ -233,6 +233,8 @@ class Check(FormulaCheck):
             for nested in ([list(xs[:cut]), list(xs[cut:])] if len(xs) > 1 else [list(xs)], [[x] for x in xs], [list(xs)]):
                 g = self.ev('LARGE(v_rows,v_k)', v_rows=nested, v_k=k)
                 self.expect('C11/LARGE:differs-from-definition:items-grouped-in-rows', finite(g) and close(g, sorted(map(Fr, xs), reverse=True)[k - 1]), items=xs, rows=nested, k=k, got=g)
+            g = self.ev('LARGE(v_list,v_k)', v_list=host_list, v_k=float(k))
+            self.expect('C11/LARGE:differs-from-definition:k-held-as-float', finite(g) and close(g, sorted(map(Fr, xs), reverse=True)[k - 1]), items=xs, k=float(k), got=g)
             g = self.ev('LARGE(v_list,v_k)', v_list=host_list, v_k=k)
             self.expect('C11/LARGE:differs-from-definition', finite(g) and close(g, sorted(map(Fr, xs), reverse=True)[k - 1]), items=xs, k=k, got=g, host=True)
             # the very same list object named twice, and a grid whose rows are one aliased row: items count as often as they are named
@@ -296,6 +298,21 @@ class Check(FormulaCheck):
                         ok = finite(g) and abs(Fr(g) - ref) <= Fr(1, 10 ** 8) * max(abs(ref), Fr(1, 10 ** 6) / Fr(sc))
                         self.expect('C11/SLOPE:differs-from-definition:scaled-x', ok, ys=ys2, xs=sx, got=g, expected=float(ref))
                         rec.nt(('slope-scaled', tuple(ys2), tuple(sx)))
+                # ... and with x far from the origin (years, timestamps, serials): the slope does not depend on where x = 0 is
+                if den != 0 and rnd.random() < 0.5:
+                    off = rnd.choice([1e4, 1e6, 43831, 1e8, 2020, 1.6e9 / 100]) + rnd.choice([0, 0.1, 0.5])
+                    ox = [x + off for x in px]
+                    ys3 = [rnd.randint(-50, 50) for _ in xs]
+                    xm3, ym3 = mean(ox), mean(ys3)
+                    den3 = sum((Fr(x) - xm3) ** 2 for x in ox)
+                    if den3 != 0:
+                        ref = sum((Fr(x) - xm3) * (Fr(y) - ym3) for x, y in zip(ox, ys3)) / den3
+                        self.e.bind(**{'v_y%d' % k: y for k, y in enumerate(ys3)})
+                        self.e.bind(**{'v_x%d' % k: x for k, x in enumerate(ox)})
+                        g = self.ev('SLOPE(%s,%s)' % (','.join('v_y%d' % k for k in range(len(ys3))), ','.join('v_x%d' % k for k in range(len(ox)))))
+                        ok = finite(g) and abs(Fr(g) - ref) <= Fr(1, 10 ** 6) * max(abs(ref), Fr(1, 100))
+                        self.expect('C11/SLOPE:differs-from-definition:x-far-from-the-origin', ok, ys=ys3, xs=ox, got=g, expected=float(ref))
+                        rec.nt(('slope-offset', tuple(ys3), tuple(ox)))
             rec.sample({'items': xs, 'example': 'AVERAGE(%s)' % self.render(xs, rnd)[0][:120]})
 
     # ------------------------------------------------------------------ conditional aggregates
